@@ -412,6 +412,32 @@ fn float_jobs_f64(quick: bool, deep: bool) -> Vec<Job<f64>> {
             }
         }
     }
+    // (c') evenly spaced axes across zero, every length 2..=64: whether fl(fl((n-1)/s) * s) exceeds n-1
+    // depends on the mantissas of the span and of the length; and axes behind a far-away sentinel knot
+    for &(lo, hi) in &[(-100.0, 100.0), (-std::f64::consts::PI, std::f64::consts::PI), (-1e20, 1e20), (-0.7, 0.7), (-5.3, 5.3), (-100.0, 33.0), (-1.0, 1e-3)] {
+        for n in 2usize..=64 {
+            let x: Vec<f64> = (0..n).map(|i| if i == n - 1 { hi } else { lo + (hi - lo) * i as f64 / (n - 1) as f64 }).collect();
+            if x.windows(2).any(|w| !(w[0] < w[1])) {
+                continue;
+            }
+            let mut q = vec![x[0], x[n - 1], 0.0, x[n / 2]];
+            let (mut e, mut f) = (x[n - 1], x[0]);
+            for _ in 0..6 {
+                e = e.next_down();
+                f = f.next_up();
+                q.push(e);
+                q.push(f);
+            }
+            jobs.push(Job { name: format!("across-zero[{lo},{hi}]:n{n}"), x, q, through_interp: false });
+        }
+    }
+    for far in [-1e20, -1e10, -4503599627370496.0] {
+        for k in [2usize, 3, 4, 9] {
+            let x: Vec<f64> = std::iter::once(far).chain((0..k).map(|i| i as f64)).collect();
+            let q = std_queries(&x);
+            jobs.push(Job { name: format!("sentinel{far}:k{k}"), x, q, through_interp: true });
+        }
+    }
     // clusters of knots a few denormals apart next to ordinary knots (differences and slopes inside
     // the cluster are extreme, the span and (len-1)/span of the whole axis are ordinary)
     let tiny = f64::from_bits(1);
